@@ -753,3 +753,129 @@ func c02KnownNonNilAtP(p *Prog, b *ssa.BasicBlock, v ssa.Value) bool {
 	}
 	return false
 }
+
+// ---------------------------------------------------------------------------
+// Error-filter helpers: func(..., err error, ...) error to which a read error
+// is handed and whose own result is then tested, e.g.
+//	err = checkComplete(lines, manifest, mac, err); if err != nil { return err }
+
+var c02FilterCache = map[string]bool{}
+
+// c02FilterLax: functions for which c02ErrFilterOK failed because a return of
+// the nil constant is positively reachable without the parameter having been
+// found nil or io.EOF (as opposed to: could not be analysed).
+var c02FilterLax = map[string]bool{}
+
+// c02ErrFilterOK: for parameter #idx (an error) of the same-package function
+// h, a nil result of h implies that the parameter is nil or io.EOF: every
+// return of a nil error lies behind an edge that established that, the
+// parameter itself may be returned, anything non-nil by construction may be
+// returned.
+func c02ErrFilterOK(p *Prog, h *ssa.Function, idx int) bool {
+	key := fmt.Sprintf("%p/%d", h, idx)
+	if v, ok := c02FilterCache[key]; ok {
+		return v
+	}
+	c02FilterCache[key] = false
+	errT := types.Universe.Lookup("error").Type()
+	res := h.Signature.Results()
+	if h == nil || len(h.Blocks) == 0 || idx < 0 || idx >= len(h.Params) || !types.Identical(h.Params[idx].Type(), errT) ||
+		res.Len() == 0 || !types.Identical(res.At(res.Len()-1).Type(), errT) {
+		return false
+	}
+	pa := ssa.Value(h.Params[idx])
+	const benign = 1
+	ff := &FlagFlow{Fn: h, Must: true,
+		Transfer: func(in ssa.Instruction, st uint64) uint64 { return st },
+		EdgeTransfer: func(from, to *ssa.BasicBlock, st uint64) uint64 {
+			if v, isNil, ok := c02NilTest(from, to); ok && isNil && v == pa {
+				return st | benign
+			}
+			if v, sent, ok := c02SentinelTest(from, to); ok && v == pa && sent == "io.EOF" {
+				return st | benign
+			}
+			if v, kind, ok := c02PredTest(p, from, to); ok && v == pa && kind >= 2 {
+				return st | benign
+			}
+			return st
+		}}
+	ff.Run()
+	ok := true
+	lax, unknown := false, false
+	n := 0
+	var judge func(v ssa.Value, b *ssa.BasicBlock, to *ssa.BasicBlock, st uint64, depth int)
+	judge = func(v ssa.Value, b, to *ssa.BasicBlock, st uint64, depth int) {
+		if st&benign != 0 || v == pa || c02ErrShapeNonNil(v) {
+			return
+		}
+		if phi, isPhi := v.(*ssa.Phi); isPhi && depth < 4 {
+			for i, e := range phi.Edges {
+				pred := phi.Block().Preds[i]
+				o, vis := ff.Out(pred)
+				if !vis {
+					continue
+				}
+				judge(e, pred, phi.Block(), ff.EdgeTransfer(pred, phi.Block(), o), depth+1)
+			}
+			return
+		}
+		ok = false
+		if isNilConst(v) {
+			lax = true
+		} else {
+			unknown = true
+		}
+	}
+	ff.AtReturns(func(ret *ssa.Return, st uint64) {
+		if len(ret.Results) == 0 {
+			return
+		}
+		n++
+		judge(c02Ret(ret, len(ret.Results)-1), ret.Block(), nil, st, 0)
+	})
+	c02FilterCache[key] = ok && n > 0
+	c02FilterLax[key] = lax && !unknown
+	return ok && n > 0
+}
+
+// c02FilteredErrors: the error results of calls in fn that hand a carrier of
+// one of errs to an error-filter helper (see c02ErrFilterOK); escapes = the
+// first call that hands such a carrier to a same-package function that is
+// neither a filter nor a classification predicate (where it cannot be followed).
+func c02FilteredErrors(p *Prog, fn *ssa.Function, carries func(v ssa.Value) bool) (filtered []ssa.Value, escapes string) {
+	allInstrs(fn, func(in ssa.Instruction) {
+		call, ok := in.(*ssa.Call)
+		if !ok || call.Call.IsInvoke() {
+			return
+		}
+		h := staticCallee(call)
+		if h == nil || !p.InModule(h) || len(h.Blocks) == 0 {
+			return
+		}
+		for j, a := range call.Call.Args {
+			if !carries(a) {
+				continue
+			}
+			n := call.Call.Signature().Results().Len()
+			if c02ErrFilterOK(p, h, j) {
+				if e := callResult(call, n-1); e != nil {
+					filtered = append(filtered, e)
+				}
+				continue
+			}
+			if c02FilterLax[fmt.Sprintf("%p/%d", h, j)] {
+				continue // analysed: it can return nil although the error is neither nil nor io.EOF — its result proves nothing, and the error is not lost track of
+			}
+			if s := c02SummarisePredicate(p, h); s.ok {
+				continue
+			}
+			if c02ErrShapeNonNil(call) {
+				continue // an error-wrapping helper
+			}
+			if escapes == "" {
+				escapes = FuncName(p, h)
+			}
+		}
+	})
+	return
+}
